@@ -7,6 +7,7 @@ import (
 	"os"
 	"path/filepath"
 	"sort"
+	"strconv"
 	"strings"
 
 	"gopkg.in/yaml.v3"
@@ -268,14 +269,49 @@ func callProgram(name string, d fnDef, args []string, expr bool) string {
 	}
 }
 
+const (
+	bombSubject = `"aaaaaaaaaaaaaaaaaaaaaaaaaaaaaaaaaaaaaaaaaaaaaaaa!"`
+	bombPattern = `"(a+)+$"`
+)
+
+// f2Extra: argument tuples that only bite in combination (a backtracking pattern needs its subject),
+// always executed in addition to the systematic tuples
+var f2Extra = map[string][][]string{
+	"regsub":                       {{bombSubject, bombPattern, `"x"`}, {`"@LONG70K@"`, `"(a|aa)+$"`, `"x"`}, {`"abc"`, `"(b)"`, `"\1\1\1\1\1\1\1\1\1\1\0\0"`}, {`"abc"`, `""`, `"@LONG70K@"`}, {`"@LONG70K@"`, `"a"`, `"@LONG70K@"`}},
+	"regsuball":                    {{bombSubject, bombPattern, `"x"`}, {`"@LONG70K@"`, `"(a|aa)+$"`, `"x"`}, {`"@LONG70K@"`, `""`, `"@LONG70K@"`}, {`"@LONG70K@"`, `"a"`, `"\0\0\0\0\0\0\0\0\0\0\0\0\0\0\0\0"`}, {`"@LONG70K@"`, `"a*?"`, `"@LONG8K@"`}},
+	"querystring.regfilter":        {{`"/?aaaaaaaaaaaaaaaaaaaaaaaaaaaaaaaaaaaaaaaaaaaaaaaa!=1"`, bombPattern}},
+	"querystring.regfilter_except": {{`"/?aaaaaaaaaaaaaaaaaaaaaaaaaaaaaaaaaaaaaaaaaaaaaaaa!=1"`, bombPattern}},
+	"querystring.globfilter":       {{`"/?aaaaaaaaaaaaaaaaaaaaaaaaaaaaaaaaaaaaaaaaaaaaaaaab=1"`, `"*a*a*a*a*a*a*a*a*a*a*a*a*a*a*a*a*c"`}},
+	"querystring.globfilter_except": {{`"/?aaaaaaaaaaaaaaaaaaaaaaaaaaaaaaaaaaaaaaaaaaaaaaaab=1"`, `"*a*a*a*a*a*a*a*a*a*a*a*a*a*a*a*a*c"`}},
+	"std.replaceall":               {{`"@LONG70K@"`, `"a"`, `"@LONG70K@"`}, {`"@LONG70K@"`, `""`, `"@LONG8K@"`}},
+	"std.strpad":                   {{`"abc"`, "70000", `"@LONG70K@"`}, {`""`, "-70000", `"ab"`}},
+	"utf8.strpad":                  {{`"abc"`, "70000", `"日本"`}, {`""`, "-70000", `"日"`}},
+	"std.strrep":                   {{`"@LONG70K@"`, "1000"}},
+	"substr":                       {{`"@LONG70K@"`, "-9223372036854775808", "-9223372036854775808"}, {`"abc"`, "9223372036854775807", "9223372036854775807"}, {`"abc"`, "-1", "9223372036854775807"}},
+	"utf8.substr":                  {{`"日本語"`, "-9223372036854775808", "-9223372036854775808"}, {`"日本語"`, "9223372036854775807", "9223372036854775807"}, {`"日本語"`, "-1", "9223372036854775807"}},
+}
+
+// functions whose memory use is driven by their arguments (learnt from earlier runs: an endless append
+// loop in std.itoa_charset with a one-character charset, repeat counts, pad widths): every call of these
+// runs in a child process, so that a process-fatal call cannot take the other observations with it
+var f2AlwaysIso = map[string]bool{"std.itoa_charset": true, "randomstr": true, "std.strpad": true, "utf8.strpad": true, "std.strrep": true, "std.replaceall": true, "std.replace": true, "regsuball": true}
+
 func hugeTuple(a []string) bool {
+	long, big := 0, false
 	for _, v := range a {
 		switch v {
 		case "2147483648", "9223372036854775807", "var.iovf", "1000000":
 			return true
 		}
+		if strings.Contains(v, "@LONG70K@") {
+			long++
+		}
+		if n, err := strconv.ParseInt(v, 10, 64); err == nil && (n >= 1000 || n <= -1000) {
+			big = true
+		}
 	}
-	return false
+	// two 70 KiB strings, or a 70 KiB string with a count: the product may not fit the memory limit either
+	return long >= 2 || (long >= 1 && big)
 }
 
 func genF2(g *fw.GenCtx, emNormal, emHuge *emitter) (reps []Exec) {
@@ -382,6 +418,11 @@ func genF2(g *fw.GenCtx, emNormal, emHuge *emitter) (reps []Exec) {
 					}
 					push(a)
 				}
+				for _, x := range f2Extra[name] {
+					if len(x) == len(sig) {
+						push(x)
+					}
+				}
 				if variadic {
 					head := base[:len(sig)-1]
 					push(append([]string{}, head...))
@@ -405,10 +446,10 @@ func genF2(g *fw.GenCtx, emNormal, emHuge *emitter) (reps []Exec) {
 			}
 			for ti, a := range tuples {
 				// a tuple with a huge count may exhaust the memory, which kills the worker and with it every
-				// observation of its case: such tuples are executed one per case
-				em := emNormal
-				if hugeTuple(a) {
-					em = emHuge
+				// observation of its case: such tuples are executed in a child process of the worker
+				em, iso := emNormal, false
+				if hugeTuple(a) || f2AlwaysIso[name] {
+					em, iso = emHuge, true
 				}
 				for sci, sc := range scopes {
 					args := a
@@ -417,7 +458,7 @@ func genF2(g *fw.GenCtx, emNormal, emHuge *emitter) (reps []Exec) {
 					}
 					bound := ti > 0
 					if d.Return != "" {
-						e := Exec{Fam: "F2", Con: con, Mode: "sub", Scope: sc, Body: callProgram(name, d, args, true), Lint: true, Bound: bound, Tag: con}
+						e := Exec{Fam: "F2", Con: con, Mode: "sub", Scope: sc, Body: callProgram(name, d, args, true), Lint: true, Bound: bound, Tag: con, Iso: iso}
 						em.add(e)
 						if sci == 0 && repTuple[ti] {
 							reps = append(reps, e)
@@ -425,7 +466,7 @@ func genF2(g *fw.GenCtx, emNormal, emHuge *emitter) (reps []Exec) {
 					}
 					// statement form: always for procedures; for functions only the first tuples (the linter decides)
 					if d.Return == "" || ti < 3 {
-						e := Exec{Fam: "F2", Con: con, Mode: "sub", Scope: sc, Body: callProgram(name, d, args, false), Lint: true, Bound: bound, Tag: con}
+						e := Exec{Fam: "F2", Con: con, Mode: "sub", Scope: sc, Body: callProgram(name, d, args, false), Lint: true, Bound: bound, Tag: con, Iso: iso}
 						em.add(e)
 						if d.Return == "" && sci == 0 && repTuple[ti] {
 							reps = append(reps, e)
@@ -436,6 +477,24 @@ func genF2(g *fw.GenCtx, emNormal, emHuge *emitter) (reps []Exec) {
 			_ = si
 		}
 		emNormal.mark()
+	}
+	// the match operators (not assignment operators, hence not in F1): subject x pattern, literal and dynamic pattern
+	subjects := []string{`""`, "req.http.Not-Set", `"abc"`, bombSubject, `"@LONG70K@"`, `"a%00b"`, `"日本語"`}
+	patterns := []string{`""`, `"abc"`, bombPattern, `"("`, `"(?"`, `"\"`, `"a{100000}"`, `"(a|aa)+$"`, `"^(([a-z])+.)+[A-Z]([a-z])+$"`, `"(?R)"`, `"^(a(?1)?)$"`, `"(((((((((((a)))))))))))"`, `"@LONG70K@"`, `"(?i)ABC"`, `"\\x{110000}"`, `"[[:alpha:]"`, `"a**"`, `"(?<n>a)(?<n>b)"`}
+	for _, op := range []string{"~", "!~"} {
+		for _, sj := range subjects {
+			for _, pt := range patterns {
+				body := "set req.http.S = " + sj + ";\nif (req.http.S " + op + " " + pt + ") { log re.group.0 re.group.1; }"
+				emNormal.add(Exec{Fam: "F2", Con: "op:" + op + "/literal-pattern", Mode: "sub", Scope: "RECV", Body: body, Lint: true, Bound: true, Tag: "op:" + op})
+				body = "set req.http.S = " + sj + ";\nset req.http.P = " + pt + ";\nif (req.http.S " + op + " req.http.P) { log re.group.0 re.group.1; }"
+				emNormal.add(Exec{Fam: "F2", Con: "op:" + op + "/variable-pattern", Mode: "sub", Scope: "RECV", Body: body, Lint: true, Bound: true, Tag: "op:" + op})
+			}
+		}
+		emNormal.mark()
+	}
+	for _, ip := range []string{"client.ip", "var.ipns", "var.ip6", `"192.0.2.1"`, `"not-an-ip"`, "req.http.Not-Set"} {
+		body := f2PreFor(ip) + "if (" + ip + " ~ acl1) { log \"in\"; }\nif (" + ip + " !~ acl1) { log \"out\"; }"
+		emNormal.add(Exec{Fam: "F2", Con: "op:~/acl", Mode: "sub", Scope: "RECV", Body: body, Lint: true, Bound: true, Tag: "op:~"})
 	}
 	emNormal.flush()
 	emHuge.flush()
